@@ -208,6 +208,14 @@ def gen_swarm(rng: random.Random, profile: dict) -> dict:
         'no_cg1': (not faulty or 'solver_fail' not in faults) and rng.random() < 0.5,
         'witness': rng.random() < 0.25,
     }
+    force = profile.get('force')
+    if force in ('churn', 'hoard', 'tower'):
+        # self-contained runs of one special shape (used to look for a replayable instance of a failure
+        # that was first seen depending on what earlier runs left in a worker process)
+        swarm['tower'] = swarm['hoard'] = swarm['churn'] = False
+        swarm[force] = True
+        if force == 'tower':
+            swarm['heavy'] = False
     return swarm
 
 
